@@ -576,6 +576,62 @@ def run(tier, seed, replay):
         if m is not None and m[0][0] != got:
             disagreements.append(({"kind": "discovery", "missing_start_dir": True}, {"impl": [got, e[-200:]], "model": coqterm.plain(m[0])}))
 
+    # ---------------- (a') discovery is per input: several files of one invocation, each under its own nearest config
+    if not replay or (json.load(open(replay)).get("case") or {}).get("kind") == "multi":
+        n_multi = 40 if quick else 400
+        mrnd = common.rng(seed, PROP + "multi")
+
+        def one_multi(i):
+            r = __import__("random").Random("%d-%d" % (seed, i))
+            root = os.path.join(base, "m%d" % i)
+            shutil.rmtree(root, ignore_errors=True)
+            dirs = [[], ["d10"], ["d10", "d11"], ["d10", "d11", "d12"], ["e10"], ["d10", "e11"]]
+            cfgs = {}
+            for d in dirs:
+                if r.random() < 0.45:
+                    cfgs[tuple(d)] = (r.choice([".rustfmt.toml", "rustfmt.toml"]), r.choice([1, 2, 3, 5, 6, 7, 8]))
+            srcs = []
+            for d in dirs:
+                for k in range(r.choice([0, 1, 1, 2])):
+                    srcs.append(d + ["f%d.rs" % k])
+            if len(srcs) < 2:
+                srcs = [["d10", "a.rs"], ["d10", "d11", "b.rs"]]
+            for d in dirs:
+                os.makedirs(os.path.join(root, *d), exist_ok=True)
+            for d, (nm, ts) in cfgs.items():
+                open(os.path.join(root, *d, nm), "w").write("tab_spaces = %d\n" % ts)
+            body = "fn f() {\n let x = 1;\n}\n"
+            for sp in srcs:
+                open(os.path.join(root, *sp), "w").write(body)
+            order = list(srcs)
+            r.shuffle(order)
+            rc, o, e = rustfmt([os.path.join(root, *sp) for sp in order], {"HOME": os.path.join(root, "no-home"), "XDG_CONFIG_HOME": os.path.join(root, "no-xdg")})
+            bad = []
+            for sp in srcs:
+                d = sp[:-1]
+                want = 4
+                while True:
+                    if tuple(d) in cfgs:
+                        want = cfgs[tuple(d)][1]
+                        break
+                    if not d:
+                        break
+                    d = d[:-1]
+                text = open(os.path.join(root, *sp)).read()
+                m = re.search(r"^( *)let x", text, re.M)
+                got = len(m.group(1)) if m else None
+                if got != want:
+                    bad.append({"file": "/".join(sp), "indent": got, "tab_spaces_of_nearest_config": want})
+            shutil.rmtree(root, ignore_errors=True)
+            return {"kind": "multi", "order": ["/".join(x) for x in order], "configs": {"/".join(k) or ".": v for k, v in cfgs.items()}, "rc": rc, "stderr": e[-300:]}, bad
+        for case_m, bad in pmap(one_multi, list(range(n_multi))):
+            if bad:
+                report("multi_file_discovery", {"case": case_m, "wrong": bad},
+                       "in one invocation over %r a file was formatted under a configuration that is not its nearest one: %r" % (case_m["order"], bad))
+            elif len(case_m["configs"]) > 1:
+                nontrivial.add(common.case_hash(case_m))
+        rep.coverage["multi_file_invocations"] = n_multi
+
     # ---------------- (c) WidthHeuristics::scaled, exhaustively over the tier's range
     def one_scaled(n):
         rc, o, e = rustfmt(["--config", "max_width=%d" % n, "--print-config", "current", os.path.join(base, "s.rs")],
